@@ -56,7 +56,7 @@ CLAIMED: dict[str, tuple[str, str, str, str]] = {
     "C11": (
         "Lean 4 theorems over the white-box conversion model (create_nested_marker, normalize_python_version_markers, get_python_constraint_from_marker) against the PEP 508 reference semantics and against poetry-core's own evaluation + structural differential correspondence + oracle on an interpreter grid",
         "Machine-checked for all X, Y, Z : Nat: the create_nested_marker text evaluated by the reference equals allows(X.Y.Z) for ranges, precision-3 versions, unions and the universal range (inclusive/exclusive x precision 1/2/3 x min/max incl. the .0 padding), and the same through poetry-core's own parse_marker + validate (`createNested_poetry`, no leaf-level hypothesis on the full domain; wildcard ranges X.*, X.Y.*, !=X.Y.* relative to the leaf specification); the listed operators land in the domain; normalize_python_version_markers is exact per (op, value) pair and for in/not in lists; the multi-clause constraint text splits soundly (`split_sound`); get_python_constraint_from_marker is exact for single items, an upper bound for every marker and exact on python-only markers (`pyConstraint_upper_validate`, `pyConstraint_exact_validate`, hypothesis-free on the full comparison-operator domain). A proof obligation that would not close (`hne`) exposed a real defect (fixed as 683cb61). Every run compares model vs code on texts and constraints and evaluates ranges/markers on every minor 2.6-4.1 x patch levels by poetry-core and by the reference, incl. the complete python_version pair universe.",
-        TB + "Hypothesis-free on the domain with ~= leaves and python_version in/not in lists (any number of list clauses per conjunction: `pair_alternatives_own` is the statement the seeded change C11-3 breaks); `createNested_poetry` needs only the decidable `nestedDomain` (no one-component bound). Outside: single versions of precision < 3 (counterexample theorem), one-component bounds and dev-release bounds (relative to the leaf specification; 21 such ranges replayed without disagreement). Known finding single-version-precision-lt-3 as counterexample theorem.",
+        TB + "Hypothesis-free on the domain with ~= leaves and python_version in/not in lists (any number of list clauses per conjunction: `pair_alternatives_own` is the statement the seeded change C11-3 breaks); `createNested_poetry` needs only the decidable `nestedDomain` (no one-component bound), `createNested_poetry_one_component` covers a second decidable domain (one/two-component bounds, lower ends inclusive, upper exclusive, no a.b / a.(b+1) adjacency: `>=3`, `^3`, `^3.8`, `>=2.7,<3 || >=3.5,<4`); `no_leaf_specification_one_component` proves that no leaf specification can exist once `python_version == \"3\"` is reachable (observed on the real code, outside the property's two-component domain); `createNested_ne_two_component` and `pyRewrite_two_digit` name what the seeded changes C11-4 / C17-4 break. Outside: single versions of precision < 3 (counterexample theorem), the remaining one-component mixes and dev-release bounds (relative to the leaf specification). Known finding single-version-precision-lt-3 as counterexample theorem.",
         "DESIGN.md §4 C11",
     ),
     "C13": (
@@ -68,7 +68,7 @@ CLAIMED: dict[str, tuple[str, str, str, str]] = {
     "C17": (
         "Lean 4 theorems by structural induction over only/exclude/reduce_by_python_constraint, composed with C07's simplifier soundness and C11's conversion exactness + structural differential correspondence + truth oracle",
         "Machine-checked, hypothesis-free on the full comparison-operator domain: `only_mentions` (the result mentions only the requested variables: the simplifier introduces no variable), `only_weakens_validate`, `exclude` on a conjunction of leaves is exactly the conjunction of the others, without_extras = exclude(\"extra\") (rfl), `reduce_exact_validate` (reduction by a Python range is exact incl. the MarkerUnion shortcut, for ranges whose bounds have two or three components). General forms relative to the leaf specification are kept as `_partial`. Every run compares model vs code on only/exclude/without_extras/reduce results and evaluates the three statements on the environment sample.",
-        TB + "only / exclude / reduce are hypothesis-free on the domain FullLeafLs (comparison operators, ~=, python_version lists); ranges with one-component bounds and markers outside it are covered by the general forms + correspondence.",
+        TB + "only / exclude / reduce are hypothesis-free on the domain FullLeafLLs (comparison operators, ~=, python_version and python_full_version lists); ranges with one-component bounds and markers outside it are covered by the general forms + correspondence.",
         "DESIGN.md §4 C17",
     ),
     "C19": (
@@ -98,7 +98,7 @@ CLAIMED: dict[str, tuple[str, str, str, str]] = {
         "exactly of declared, range-derived and licence classifiers; and that the PEP 621 and legacy spellings configure equal Metadata. Header "
         "order, METADATA_BASE, tables and AUTHOR_REGEX are regenerated from source every run; the model is compared with real wheel METADATA "
         "and sdist PKG-INFO in both styles; Spec.Rfc822 is compared with email.parser on hostile messages.",
-        TB + "Partial: tomli, fastjsonschema, SPDX lookup, NFC normalisation, to_pep_508, canonicalize_name, format_python_constraint are inputs of the model; what remains trusted is the list `Printers` (`validated_render_parse_printers`: no CR/LF in the output of to_pep_508, of str(constraint) in format_python_constraint's range branch, of the schema's uri format and of SPDX names; Version.to_string, the union branch of format_python_constraint and canonicalize_name are proved line-free); project_eq_legacy covers the commonly expressible fields, single printed ranges, every wildcard-spelt range and the evaluated union `~2.7 || ^3.6` (no general union theorem); `render_history_free` / `build_history_free` name the subject of the call-history stream; values compared modulo leading blanks (RFC 822 unfolding). Line-break validation was added to /repo (64d596d, extended by 11abac0 after the proof obligation exposed three unvalidated sources); two author-table findings are known. A call-history stream (same project, one free-text field re-cased, built back to back) looks for state kept between builds.",
+        TB + "Partial: tomli, fastjsonschema, SPDX lookup, NFC normalisation, to_pep_508, canonicalize_name, format_python_constraint are inputs of the model; every printer is proved line-free at the model level (`to_pep_508_single_line`, `constraint_text_single_line`, `marker_text_single_line`, `format_python_single_line`, `uri_format_single_line`, SPDX fallback names by `decide` on the regenerated table), so `validated_render_parse_objects` trusts only `Objects`: the strings INSIDE the dependency objects are line-free (checked on the real objects on every built case), the schema engine accepted the uri fields, license_by_id returns the table entry; project_eq_legacy covers the commonly expressible fields, single printed ranges, every wildcard-spelt range and the evaluated union `~2.7 || ^3.6` (no general union theorem); `render_history_free` / `build_history_free` name the subject of the call-history stream; values compared modulo leading blanks (RFC 822 unfolding). Line-break validation was added to /repo (64d596d, extended by 11abac0 after the proof obligation exposed three unvalidated sources); two author-table findings are known. A call-history stream (same project, one free-text field re-cased, built back to back) looks for state kept between builds.",
         "DESIGN.md §4 C14",
     ),
     "C18": (
@@ -135,7 +135,7 @@ CLAIMED: dict[str, tuple[str, str, str, str]] = {
     "C04": (
         "Lean 4 theorems: parsed constraint membership = formalised packaging specifier semantics, per operator and for sets + differential correspondence (model vs code, spec vs packaging)",
         "Machine-checked proof that membership in the model of the parsed constraint equals the formalised reference semantics (Spec/Specifier.lean, the range-based packaging 26 algorithm): per operator on candidates regular for the literal; every operator but != with final literals on EVERY candidate (incl. ~=, ==V.*), !=V.* on every candidate through the real union `allows`; the exclusive-comparison rules; sets of any length of single-range clauses with no regularity between literals (`>=1.2, ==1.2.*`), and sets with any operators in the regular setting; the documented ranges of ^, ~, bare versions and ||. Every run compares model vs real parse_constraint().allows() and spec vs packaging on ~230k pairs.",
-        TB + "Comma sets without != : membership = reference with no hypothesis beyond the property's guard (all literals final: every candidate incl. the literals' pre/post/dev/local siblings; otherwise candidate regular for each literal); the complement is exactly the class sibling-of-another-literal (witness proved and replayed). Comma sets WITH != / !=V.*: member-by-member membership = reference on candidates regular for each literal with no regularity between the literals (side conditions on the set: no == clause, no local label, no >=V,<=V point; `neq_set_membership_eq_ref`, by a per-probe version of the union intersect walk). Open: sets mixing == with != outside the regular setting. Reference = packaging 26.3 in a subprocess. Three in-guard divergence classes are known findings (by design of the range algebra).",
+        TB + "Comma sets without != : membership = reference with no hypothesis beyond the property's guard (all literals final: every candidate incl. the literals' pre/post/dev/local siblings; otherwise candidate regular for each literal); the complement is exactly the class sibling-of-another-literal (witness proved and replayed). EVERY comma set (== mixed with !=, !=V.* and all range operators): member-by-member membership = reference on candidates regular for each literal, nothing asked between literals (`guarded_set_membership_eq_ref`, by a per-probe version of the union intersect walk); residual side conditions: != literals without local label and the static NoPoint (no >=V,<=V point; empirically not a boundary: 17 615 probing pairs on the real code without deviation); the conclusion is on the member-by-member answer, and on the real `allows` when the result is not a union. Reference = packaging 26.3 in a subprocess. Three in-guard divergence classes are known findings (by design of the range algebra).",
         "DESIGN.md §4 C04",
     ),
     "C05": (
@@ -148,7 +148,7 @@ CLAIMED: dict[str, tuple[str, str, str, str]] = {
         "the real `allows` (`C05_regular_partial`), incl. the difference merge walks and `_inverted`. Outside that setting the union-level "
         "results stay `_partial` (full statements kept as `def …_full_statement`). The model mirrors the code branch by branch and "
         "is compared structurally (text, dump, flags, membership on regular AND irregular probes) on every run.",
-        TB + "list.sort modelled as stable insertion sort; one known finding (Version ∩ range with local lower bound) proved as a counterexample theorem. Beyond the regular setting: intersect of non-union operands is exact on ALL versions for half-open ranges (the shape of ^, ~, ~=, ==V.*, >=V,<W) and for members over final versions, and at every probe regular for exclusive-lower / inclusive-upper ends (counterexample for the complement); union-level operations are exact in the regular setting; beyond it VersionUnion.of and union ∩ are exact at every probe fine for the end shapes and on all versions for half-open members with unstable lower ends (every ==V.* disjunction); for stable adjacent ends the expectation is false: `^2 || ^3` merges to `>=2,<4` and admits 3.dev0 (counterexample_union_of_adjacent_gap = the listed class adjacent-union-gap).",
+        TB + "list.sort modelled as stable insertion sort; one known finding (Version ∩ range with local lower bound) proved as a counterexample theorem. Beyond the regular setting: intersect of non-union operands is exact on ALL versions for half-open ranges (the shape of ^, ~, ~=, ==V.*, >=V,<W) and for members over final versions, and at every probe regular for exclusive-lower / inclusive-upper ends (counterexample for the complement); union-level operations are exact in the regular setting; beyond it VersionUnion.of and union ∩ are exact at every probe fine for the end shapes and on all versions for half-open members with unstable lower ends (every ==V.* disjunction); union ∪ too (`union_at_probe`); the intersect walk equals the pairwise non-empty member intersections in order for members of ANY lengths (`intersect_members_eq_pairwise`: the equation the seeded count-threshold change C05-4 breaks); difference and Version members inside unions remain under the regular setting; for stable adjacent ends the expectation is false: `^2 || ^3` merges to `>=2,<4` and admits 3.dev0 (counterexample_union_of_adjacent_gap = the listed class adjacent-union-gap).",
         "DESIGN.md §4 C05",
     ),
     "C09": (
@@ -182,7 +182,7 @@ CLAIMED: dict[str, tuple[str, str, str, str]] = {
         "membership-equivalent re-parse for `!=V` and `a || b || …` joins (regular setting). Partial: algebra-produced ranges that the printer "
         "happens to spell with a wildcard and wildcard members inside a `||` join are covered by the correspondence (every algebra result "
         "re-printed, re-parsed, probed); a raw spelling ending in a separator is a proved counterexample and a known finding.",
-        TB + "As C05; wildcard printing mirrored incl. the epoch fix; every range or two-member union the printer spells with a wildcard re-parses membership-equivalently on every version, post-release wildcards included (`every_wildcard_spelt_range_text_roundtrip`).",
+        TB + "As C05; wildcard printing mirrored incl. the epoch fix; every range or two-member union the printer spells with a wildcard re-parses membership-equivalently on every version, post-release wildcards and `!=X.postK.*` unions included; `wildcard_spelling_iff` characterises exactly when the printer uses the wildcard spelling (the mirrored gap `<=A || >B.dev0` of seeded change C15-4 is not one).",
         "DESIGN.md §4 C15",
     ),
     "C16": (
